@@ -196,6 +196,7 @@ func solveAll(e *Exec, res *HarnessResult, prop string, timeoutS int, meta *Harn
 	axioms := e.sideAxioms()
 	// group by (kind,id)
 	type grp struct {
+		raw                    []*Term
 		noReplay               bool
 		id, kind, site, detail string
 		qs                     []*Term // each: PC ∧ ¬Cond
@@ -216,6 +217,8 @@ func solveAll(e *Exec, res *HarnessResult, prop string, timeoutS int, meta *Harn
 		}
 		g.n++
 		switch o.Kind {
+		case "deadlock":
+			g.raw = o.Raw
 		case "cover":
 			g.qs = append(g.qs, o.PC)
 		default:
@@ -227,7 +230,7 @@ func solveAll(e *Exec, res *HarnessResult, prop string, timeoutS int, meta *Harn
 		g := groups[key]
 		q := Or(g.qs...)
 		or := OblResult{ID: g.id, Kind: g.kind, Site: g.site, Count: g.n, Detail: g.detail}
-		if q.IsFalse() {
+		if q.IsFalse() && g.kind != "deadlock" {
 			or.Res = "unsat"
 			or.Trivial = true
 			or.Solver = "simplifier"
@@ -238,6 +241,21 @@ func solveAll(e *Exec, res *HarnessResult, prop string, timeoutS int, meta *Harn
 			continue
 		}
 		asserts := append([]*Term{q}, axioms...)
+		if g.kind == "deadlock" {
+			// self-contained query over the prefix encoding (the complete-execution constraints do not apply)
+			r := e.decide(g.raw, timeoutS, meta.Solver, "", true)
+			or.Res, or.Solver, or.SolverS = r.res, r.solver, r.dur
+			if r.res == "sat" {
+				dir := filepath.Join(outDir, sanitize(g.id))
+				os.MkdirAll(dir, 0o755)
+				os.WriteFile(filepath.Join(dir, "query.smt2"), []byte(Script(g.raw, true, "")), 0o644)
+				e.conc.writePrefixTrace(e, dir, g.raw, timeoutS)
+				or.Replay = dir
+				res.Violations = append(res.Violations, fmt.Sprintf("VIOLATION property=%s replay=%s obligation=%s site=%s replayed=skipped deadlock/lost wake-up: see schedule.txt", prop, dir, g.id, g.site))
+			}
+			res.Obligations = append(res.Obligations, or)
+			continue
+		}
 		if g.kind == "cover" {
 			cd := ""
 			if d := os.Getenv("VERIF_DUMP"); d != "" {
